@@ -33,6 +33,15 @@ def step (s : Unit) (t : List String) : Unit × List String :=
       match r with
       | some x => (s, ["P " ++ x])
       | none => (s, ["bad-op"])
+  | "addv" :: num :: args =>
+    -- aws_add_size_checked_varargs(num, &r, args...): all listed arguments are passed, the first `num` count
+    match parseU64? num, args.mapM parseU64? with
+    | some k, some a =>
+      if k > a.length || a.length > 10 then (s, ["bad-op"])
+      else match AwsVerif.Gen.MathDispatch.dispatchVarargs "aws_add_size_checked_varargs" k a with
+        | some x => (s, ["P " ++ x])
+        | none => (s, ["bad-op"])
+    | _, _ => (s, ["bad-op"])
   | _ => (s, ["bad-op"])
 
 def component : Component := { σ := Unit, init := (), step := step }
